@@ -74,6 +74,26 @@ def label_sig(label):
     return "c13" if label.startswith("sel") else "c04"
 
 
+SW_SIGS = {1: "c04:switch-default-vs-trailing-bare-item", 2: "c04:switch-bare-default-skips-empty-value"}
+
+
+def kl_sw_variants(include_plain=False):
+    """(kludge, switch variant code, combined signature) for every combination of the known deviations of the base semantics"""
+    out = []
+    for kl in (False, True):
+        for sw in (0, 1, 2, 3):
+            if not kl and not sw and not include_plain:
+                continue
+            sigs = (["c04:trailing-newline-dropped"] if kl else []) + [SW_SIGS[b] for b in (1, 2) if sw & b]
+            out.append((kl, sw, "+".join(sigs)))
+    return sorted(out, key=lambda x: (x[2].count("+"), x[2]))
+
+
+def mkref(lib_for_ref, kl, sw, opts, **kw):
+    return G.Ref(lib_for_ref, kludge=kl, trim_first=False, switch_default_wins=bool(sw & 1), switch_skip_empty=bool(sw & 2),
+                 opts=opts, **kw)
+
+
 def run_cases(run, cases, label, use_oracle=True):
     res = lib.run_impl("expandlib", [{k: c[k] for k in ("lib", "page", "opts", "title")} for c in cases],
                        shards=lib.NCPU)
@@ -106,8 +126,8 @@ def run_cases(run, cases, label, use_oracle=True):
                 ref.log = [[x[0], x[1], [[k, uq(v)] for k, v in x[2]]] + [uq(y) for y in x[3:]] for x in ref.log]
                 known_variant = False
                 if norm(ref.log) != norm(r["calls"]):
-                    for kl, sw in ((True, False), (False, True), (True, True)):
-                        rk = G.Ref(lib_for_ref, kludge=kl, trim_first=False, switch_default_wins=sw, opts=c["opts"])
+                    for kl, sw, _nm in kl_sw_variants():
+                        rk = mkref(lib_for_ref, kl, sw, c["opts"])
                         rk.ev(c["page_ast"], None)
                         rk.log = [[x[0], x[1], [[k, uq(v)] for k, v in x[2]]] + [uq(y) for y in x[3:]] for x in rk.log]
                         if norm(rk.log) == norm(r["calls"]):
@@ -118,9 +138,8 @@ def run_cases(run, cases, label, use_oracle=True):
                     for lk in ((True, None, False), (False, True, False), (False, False, True)):
                         if lk[0] and c["opts"].get("parserfns", True):
                             continue
-                        for kl, sw in ((False, False), (True, False), (False, True), (True, True)):
-                            rk = G.Ref(lib_for_ref, kludge=kl, trim_first=False, switch_default_wins=sw, opts=c["opts"],
-                                       leak=lk[0], resplit=lk[1], switch_link_eq=lk[2])
+                        for kl, sw, _nm in kl_sw_variants(True):
+                            rk = mkref(lib_for_ref, kl, sw, c["opts"], leak=lk[0], resplit=lk[1], switch_link_eq=lk[2])
                             rk.ev(c["page_ast"], None)
                             rk.log = [[x[0], x[1], [[k, uq(rk.finish(v) if isinstance(v, str) else v)] for k, v in x[2]]]
                                       + [uq(rk.finish(y) if isinstance(y, str) else y) for y in x[3:]] for x in rk.log]
@@ -149,10 +168,8 @@ def run_cases(run, cases, label, use_oracle=True):
                                          {k: c[k] for k in ("lib", "page", "opts", "title")})
             if not ref.unsupported and want != r["out"]:
                 sig = None
-                for kl, sw, name in ((True, False, "c04:trailing-newline-dropped"),
-                                     (False, True, "c04:switch-default-vs-trailing-bare-item"),
-                                     (True, True, "c04:trailing-newline-dropped+c04:switch-default-vs-trailing-bare-item")):
-                    r2 = G.Ref(lib_for_ref, kludge=kl, trim_first=False, switch_default_wins=sw, opts=c["opts"])
+                for kl, sw, name in kl_sw_variants():
+                    r2 = mkref(lib_for_ref, kl, sw, c["opts"])
                     if unquote_marks(r2.ev(c["page_ast"], None), r["out"]) == r["out"]:
                         sig = name
                         break
@@ -161,9 +178,8 @@ def run_cases(run, cases, label, use_oracle=True):
                     for lk in ((True, None, False), (False, True, False), (False, False, True)):
                         if lk[0] and c["opts"].get("parserfns", True):
                             continue
-                        for kl, sw in ((False, False), (True, False), (False, True), (True, True)):
-                            r3 = G.Ref(lib_for_ref, kludge=kl, trim_first=False, switch_default_wins=sw, opts=c["opts"],
-                                       leak=lk[0], resplit=lk[1], switch_link_eq=lk[2])
+                        for kl, sw, _nm in kl_sw_variants(True):
+                            r3 = mkref(lib_for_ref, kl, sw, c["opts"], leak=lk[0], resplit=lk[1], switch_link_eq=lk[2])
                             o3 = unquote_marks(r3.finish(r3.ev(c["page_ast"], None)), r["out"])
                             if not r3.unsupported and o3 == r["out"]:
                                 leak_sig = "c13:unexpanded-parser-function-args-expanded-late" if lk[0] else (
